@@ -775,6 +775,37 @@ func (e *emitter) c04TimeoutHandlerDt(c *c04sem, rel string) {
 	e.printf("/-- translated (c04sem) from `TimeoutHandler` in %s: the `dt` of the wrapper, `none` = no wrapper -/\ndef %s (duration : Int) : Option Int :=\n  %s\n\n", rel, lean, body)
 }
 
+// c04PackageVars: the package-level `var` names of a file (other than `_`): state that outlives a call / a request
+// (a sync.Pool of writers, a cached context, a shared buffer).  The timeout wrappers have none.
+func (e *emitter) c04PackageVars(s *source, rel, lean string) {
+	f := s.file(rel)
+	if f == nil {
+		e.errors = append(e.errors, "file "+rel+" not found")
+		e.stringList(lean, "MISSING: "+rel, []string{"MISSING"})
+		return
+	}
+	out := []string{}
+	for _, d := range f.Decls {
+		gd, ok := d.(*ast.GenDecl)
+		if !ok || gd.Tok != token.VAR {
+			continue
+		}
+		for _, sp := range gd.Specs {
+			vs := sp.(*ast.ValueSpec)
+			for i, n := range vs.Names {
+				if n.Name != "_" {
+					item := n.Name
+					if i < len(vs.Values) {
+						item += " = " + s.src(vs.Values[i])
+					}
+					out = append(out, item)
+				}
+			}
+		}
+	}
+	e.stringList(lean, "package-level variables of "+rel+" (state that outlives a call)", out)
+}
+
 func (e *emitter) c04Semantic(s *source) {
 	const th = "rest/handler/timeouthandler.go"
 	const srv = "zrpc/internal/serverinterceptors/timeoutinterceptor.go"
@@ -829,6 +860,10 @@ def mapSet (m : List (Nat × Int)) (k : Nat) (v : Int) : List (Nat × Int) := m.
 	e.c04SemDef(c, th, "timeoutHandler.ServeHTTP", "restHandlerCtx",
 		"(h_dt : Int) (r_hdr : String → String) (r_ctx : Option Int) (now : Int) : Option Int", c04SinkServeHTTP(s))
 	e.c04CapturedDef(s, th, "timeoutHandler.ServeHTTP", "restCapturedWrites", -1)
+	e.c04PackageVars(s, th, "restPackageVars")
+	e.c04PackageVars(s, srv, "srvPackageVars")
+	e.c04PackageVars(s, cli, "cliPackageVars")
+	e.c04PackageVars(s, fx, "fxPackageVars")
 }
 
 func init() {
@@ -861,6 +896,7 @@ func init() {
 		e.c04DetailDef(s, srvgo, "WithTimeout", "withTimeoutOpt", lit1)
 		e.c04DetailDef(s, srvgo, "WithSSE", "withSSEOpt", lit1)
 		e.c04DetailDef(s, srvgo, "Server.AddRoutes", "serverAddRoutes", nil)
+		e.c04DetailDef(s, srvgo, "Server.AddRoute", "serverAddRoute", nil)
 		e.c04DetailDef(s, eng, "engine.addRoutes", "engAddRoutes", nil)
 		e.c04GuardedDef(s, eng, "newEngine", "engNewTimeout", []string{"timeout"})
 		e.c04GuardedDef(s, eng, "engine.buildChainWithNativeMiddlewares", "engTimeoutWiring", []string{"TimeoutHandler", "Timeout"})
